@@ -122,11 +122,7 @@ def run(chk):
     stats = {'evaluations': 0, 'predictions': 0, 'compared': 0, 'nontrivial': set(), 'lines': 0}
     samples = []
     import cmdh
-    seeds = []
-    d = os.path.join(os.path.dirname(os.path.dirname(os.path.abspath(__file__))), 'corpus', 'C19')
-    if os.path.isdir(d):
-        for f in sorted(os.listdir(d)):
-            if f.endswith('.json'): seeds.append(json.load(open(os.path.join(d, f)))['case_seed'])
+    seeds = corpus_cases('C19')
     seeds += derive_seeds(chk.seed, n)
     if True:
         orig = cmdh.Case
@@ -139,7 +135,7 @@ def run(chk):
                     stats['predictions'] += getattr(c, 'predictions', 0); stats['compared'] += getattr(c, 'compared', 0)
                     preds = [o for o in r['obs'] if o.startswith('pred=[')]
                     if any(o.count('>') >= 2 for o in preds): stats['nontrivial'].add(r['seed'])
-                    base = {'case_seed': r['seed'], 'how': './check C19 --replay <this file> regenerates the case from case_seed'}
+                    base = {'case_seed': r['seed'], 'gen': r['gen'], 'how': './check C19 --replay <this file> regenerates the case from case_seed (and gen)'}
                     if r['exc']:
                         chk.reject(f"C19:exception:{tb_signature(r['exc'][1])}", f"the implementation raised {r['exc'][0]}", dict(base, traceback=r['exc'][1][-1500:]))
                     if r['diff']: chk.disagree('Cmd', dict(base, **r['diff']))
@@ -167,9 +163,9 @@ def replay(chk, path):
     c = json.load(open(path)); r0 = c.get('replay', c)
     orig = cmdh.Case; cmdh.Case = PredCase
     try:
-        for r in cmdh.run_cases(chk, [r0['case_seed']]):
+        for r in cmdh.run_cases(chk, [(r0['case_seed'], r0.get('gen', 0))]):
             if r['diff']: chk.disagree('Cmd', r['diff'])
-            for sig, what in getattr(r['case'], 'findings', []): chk.reject(sig, what, {'case_seed': r['seed']})
+            for sig, what in getattr(r['case'], 'findings', []): chk.reject(sig, what, {'case_seed': r['seed'], 'gen': r['gen']})
     finally:
         cmdh.Case = orig
     chk.coverage.update({'evaluations': 1, 'distinct_nontrivial': 0, 'rule': 'replay', 'samples': [r0['case_seed']]})
